@@ -22,14 +22,25 @@ META = dict(
                 'server\'s current record (l1_coherent); header, store and fetch frames carry value, deadline and trigger set unchanged exactly '
                 'when the key is non-empty and trigger names are non-empty and NUL-free (codec round trips, with refutation witnesses for the '
                 'empty name, the empty key and names containing NUL = known finding); server_of k < n, a key is only ever stored on server_of n k, '
-                'and the hash step regenerated from src/tcp_connector.cpp equals the model leaf for every state and byte. The model is run '
-                'against the real client/server code on the same histories, raw frames and client-codec probes.'),
+                'and the hash step regenerated from src/tcp_connector.cpp equals the model leaf for every state and byte. Deepening: the uint32 '
+                'length-sum check of session::store is exact without wrap-around and refuted with it (store_length_check_*; finding '
+                'store-length-sum-wraps); across cache server restarts a fetch is current or the node\'s own L1 record with a colliding generation '
+                '(fetch_across_restarts_*; nodes without L1 unaffected; restart harmless when no L1 holds a key of that server); messenger::transmit '
+                'over any schedule of short transfers is the atomic RPC, and under failures anywhere it returns the genuine answer, `error` or '
+                'throws (transmit_*; finding retry-sends-overwritten-header); with servers down a fetch that returns is current, failed calls '
+                'change no server (nstep theorems); different server list orders disagree on some key and a reversed list refutes the property '
+                '(assumption shown necessary); field sizes/adjacency of tcp_operation_header from the source. The model is run '
+                'against the real client/server code on the same histories (also with every readv/writev cut into 1..n byte transfers and with '
+                'servers going down and up), raw frames, client-codec probes and mid-answer connection failures.'),
     level_note=('Trusted: Coq kernel + vm_compute; clang AST + the hash-step translation (cxx2v expression translator); extraction; '
                 'the C++ around the modelled functions (booster::aio sockets, messenger::transmit without reconnects, threads) is '
                 'exercised by the harness, not modelled; mem_cache is modelled abstractly with limit 0 (no LRU eviction; L1 eviction '
-                'is an explicit Evict operation); generation counter is unbounded in the model (uint64 in the code); frames whose '
-                'uint32 length sum wraps are outside the model (hostile peer). Known finding: trigger names (and keys, as triggers) that are '
-                'empty or contain NUL are not carried by the wire format.'),
+                'is an explicit Evict operation); generation counter is unbounded in the model (uint64 in the code); for frames whose '
+                'uint32 length sum wraps the code has undefined behaviour (reads outside the frame): the model proves the check passes, the '
+                'replay shows the crash. Transfer schedules and failures are modelled for one RPC against one server cache (NetDefs.transmit), not woven '
+                'into the world histories; the first-use connect of a node (all servers must be up) is not modelled. Known findings: trigger names (and keys, '
+                'as triggers) that are empty or contain NUL are not carried by the wire format; store-length-sum-wraps (hostile peer); '
+                'retry-sends-overwritten-header (connection failure in mid-answer).'),
 )
 
 GEN = {}   # the hash loop body needs its own small driver around cxx2v (state variable h): see gen_hash()
@@ -142,7 +153,7 @@ def gen_proto():
         need_ops = ['fetch', 'rise', 'clear', 'store', 'stats', 'error', 'done', 'data', 'no_data', 'uptodate', 'out_stats']
         if not all(n in dict(ops) for n in need_ops):
             raise cxx2v.Unsupported('namespace opcodes: expected enumerators not found: %r' % (ops,))
-        if len(lay) < 18:
+        if len(lay) < 39:
             raise cxx2v.Unsupported('c10_layout enumerators not found')
         lines = ['(* GENERATED by checks/C10.py:gen_proto (clang AST of private/tcp_cache_protocol.h via harness/C10_tu.cpp) -- do not edit *)',
                  'From Coq Require Import ZArith List.', 'Import ListNotations.', 'Local Open Scope Z_scope.', '']
@@ -188,10 +199,13 @@ def rand_bytes(rng, n):
     return bytes(rng.getrandbits(8) for _ in range(n))
 
 
-def gen_history(rng, bad_names=False, nops=None, raw=False):
-    ns = rng.choice([1, 1, 2, 2, 3])
+def gen_history(rng, bad_names=False, nops=None, raw=False, down=False):
+    ns = rng.choice([1, 1, 2, 2, 3]) if not down else rng.choice([1, 2, 2, 2, 3])
     ncl = rng.choice([2, 2, 3])
     flags = ''.join(rng.choice('01') if rng.random() < 0.6 else '1' for _ in range(ncl))
+    if ns == 1 and not down and rng.random() < 0.25:
+        # with ONE server the order of the server list cannot matter: some nodes get the list "reversed"
+        flags = ''.join({'0': 'r', '1': 'R'}[x] if rng.random() < 0.5 else x for x in flags)
     nkeys = rng.choice([1, 2, 3, 4])
     keys = rng.sample(KEYS, nkeys)
     if rng.random() < 0.3:
@@ -202,10 +216,22 @@ def gen_history(rng, bad_names=False, nops=None, raw=False):
     now = 1000
     ops = []
     n = nops if nops is not None else rng.randrange(3, 31)
+    inject = (not down) and (not bad_names) and rng.random() < 0.12 and 'r' not in flags and 'R' not in flags
+    # (not together with short transfers: the reconnect path of messenger::transmit does not set TCP_NODELAY again, and one-byte
+    # writes on such a socket stall 40 ms each in Nagle / delayed-ACK - a performance matter only, but it makes the run slow)
+    short = (not inject) and rng.random() < 0.3          # short transfers: every readv/writev moves at most 1..n bytes from some point on
     for _ in range(n):
         r = rng.random()
         c = rng.randrange(ncl)
         k = rng.choice(keys)
+        if short and rng.random() < 0.15:
+            ops.append('Y:%d' % rng.choice([1, 1, 2, 3, 7, 16, 39, 40, 41, 0]))
+        if down and rng.random() < 0.14:
+            ops.append('%s:%d' % (rng.choice('DDU'), rng.randrange(ns)))
+        if inject and r < 0.65 and rng.random() < 0.25:
+            # the next store / fetch loses its connection inside the answer header (after 0 bytes only before a fetch: whether the
+            # server has executed a request whose answer was not read at all is a race)
+            ops.append('Z:%d' % (rng.choice([0, 1, 4, 5, 8, 16, 39]) if r >= 0.30 else rng.choice([1, 2, 4, 5, 8, 16, 39])))
         if r < 0.30:
             v = rng.choice(VALS) if rng.random() < 0.6 else rand_bytes(rng, rng.randrange(0, 6))
             x = rng.random()
@@ -330,6 +356,35 @@ def gen_raw_frame(rng, keys, trigs, now):
     return hdr(op, len(p), rand_bytes(rng, 24)), p
 
 
+def gen_cut_probe(rng):
+    """failure in the middle of the answer: the fake server sends the first `cut` bytes of the answer and closes; cut values around
+    the fields of the header object that the failed read overwrites (opcode 0..3, size 4..7, union 16..39) and inside the payload"""
+    k = rng.choice([x for x in KEYS if x])
+    if rng.random() < 0.65:
+        tags = rng.choice('01')
+        tif = rng.choice('01')
+        gen = rng.choice([0, 1, 5, 2 ** 32, 2 ** 64 - 1])
+        x = rng.random()
+        if x < 0.7:
+            v = rng.choice(VALS)
+            names = [rng.choice(GOOD_TRIGS) for _ in range(rng.randrange(0, 4))] if tags == '1' else []
+            region = b''.join(t + b'\0' for t in names)
+            pl = v + region
+            rh = hdr(7, len(pl), struct.pack('<QqII', rng.choice([0, 7, 2 ** 32]), rng.choice([0, 1005, -1, 2 ** 40]), len(v), len(region)))
+        else:
+            pl = b''
+            rh = hdr(rng.choice([8, 9, 5]), 0)
+        total = 40 + len(pl)
+        cut = rng.choice([0, 0, 1, 2, 3, 4, 5, 6, 7, 8, 9, 15, 16, 17, 24, 39, 40, 41, total - 1, rng.randrange(total)])
+        cut = min(cut, total - 1)
+        return 'P Z F %s %d %s %s %d %s %s' % (hexs(k), gen, tags, tif, cut, hexs(rh), hexs(pl))
+    v = rng.choice(VALS)
+    ts = rng.sample(GOOD_TRIGS, rng.randrange(0, 3))
+    rh = hdr(rng.choice([6, 6, 5]), 0)
+    cut = rng.choice([0, 0, 1, 2, 3, 4, 5, 7, 8, 20, 39, rng.randrange(40)])
+    return 'P Z S %s %s %d %s %d %s -' % (hexs(k), hexs(v), rng.choice([0, 1005, -1, 2 ** 40]), trigs_field(ts), cut, hexs(rh))
+
+
 def gen_probe(rng):
     nd = hdr(rng.choice([8, 5, 6, 9, 10, 0]), 0)
     r = rng.random()
@@ -389,6 +444,12 @@ def gen_cases(ctx):
         cases.append(gen_handshake_history(rng))
     for _ in range(ctx.scale(3000, 30000)):
         cases.append(gen_probe(rng))
+    # servers going down and coming up again (connection refused): calls that need such a server must throw, nothing else changes
+    for _ in range(ctx.scale(700, 5000)):
+        cases.append(gen_history(rng, raw=rng.random() < 0.3, down=True))
+    # the connection fails in the middle of an answer: what the second attempt of messenger::transmit sends
+    for _ in range(ctx.scale(500, 5000)):
+        cases.append(gen_cut_probe(rng))
     # real concurrency: one thread per node, 2 io threads per server; judged by the oracle alone
     for _ in range(ctx.scale(150, 1500)):
         cases.append('M %d %s %d %d %d' % (rng.choice([1, 2]), rng.choice(['11', '10', '110', '111', '101']), rng.getrandbits(30),
@@ -452,10 +513,58 @@ def oracle_history(c, out):
     lossy = set()        # keys whose latest store the wire format cannot carry (empty key, or a trigger name that is empty or
                          # contains NUL): for these keys the server may differ from what the completed operations say
     l1flags = c[2]
+    if ns > 1 and ('r' in l1flags or 'R' in l1flags) and any(x in l1flags for x in '01'):
+        # nodes configured with different orders of the server list (never generated for more than one server; docs/C10_order.case):
+        # the assumption "same list in the same order on every node" is violated, whatever fails is reported under one key
+        r = oracle_history([c[0], c[1], l1flags.replace('r', '0').replace('R', '1')] + c[3:], out)
+        return ('server-order-differs', 'nodes with different server list orders: ' + r[1]) if r else None
     seen_gen = [dict() for _ in range(ns)]   # server -> generation -> (key, value, dl)
+    up = [True] * ns
+    inject = -1
+    has_down = any(o.startswith('D:') for o in c[3:])
+
+    def first_down():
+        return ([i for i in range(ns) if not up[i]] + [ns])[0]
+
     for o in c[3:]:
         f = o.split(':')
         op = f[0]
+        if op == 'Y':
+            continue         # short transfers must not change any answer
+        if op == 'Z':
+            inject = int(f[1])   # the next call loses its connection after that many bytes of the answer
+            continue
+        injected, inject = inject, -1
+        if op in ('D', 'U'):
+            if int(f[1]) < ns:
+                up[int(f[1])] = (op == 'U')
+            continue
+        # a call that needs a server that is down must throw (and say nothing); any other call must not throw
+        if has_down and op in ('S', 'F', 'G', 'R', 'C', 'X', 'W'):
+            if op in ('S', 'F', 'G'):
+                must = not up[py_hash(unhex(f[2]), ns)]
+            elif op == 'W':
+                must = int(f[1]) < ns and not up[int(f[1])]
+            else:
+                must = first_down() < ns
+            nxt = toks[ti] if ti < len(toks) else ''
+            # (S, R, C print nothing when they return: a token !S can only be attributed to the call that must throw; a call that
+            # throws without reason leaves a token over, which the end-of-history check below reports)
+            did = must if op in ('S', 'R', 'C') and not must else nxt == '!' + op
+            if must != did:
+                return ('server-down-handling', 'operation %s: %s' % (o[:60], 'did not throw although a server it needs is down' if must
+                                                                      else 'threw although every server it needs is up'))
+            if did:
+                ti += 1
+                if op in ('R', 'C'):
+                    # the broadcast reached the servers before the first one that is down
+                    fd = first_down()
+                    t = unhex(f[2]) if op == 'R' else None
+                    for k in [k for k, e in spec.items() if py_hash(k, ns) < fd and (op == 'C' or t in e[1])]:
+                        del spec[k]
+                if op == 'W':
+                    foreign = True
+                continue
         if op == 'T':
             now += int(f[1])
         elif op == 'S':
@@ -505,7 +614,9 @@ def oracle_history(c, out):
             if restarted and ((cl is None) != (sv is None) or (cl is not None and (cl['v'] != sv['v'] or cl['dl'] != sv['dl']))):
                 return ('stale-after-server-restart', 'after a cache server restart (generation counter back at 0) the client answered %s '
                         'but the server holds %s for key %s' % (cl and cl['v'][:40].hex(), sv and sv['v'][:40].hex(), k.hex()))
-            if (cl is None) != (sv is None):
+            if injected >= 1 and cl is None:
+                pass             # after a connection failure in mid-answer a miss is allowed (never a wrong value: checked below when found)
+            elif (cl is None) != (sv is None):
                 return ('fetch-not-current', 'client %s but server %s for key %s' % (
                     'found' if cl else 'not found', 'holds a value' if sv else 'holds nothing', k.hex()))
             if cl is not None:
@@ -516,7 +627,7 @@ def oracle_history(c, out):
                 if op == 'F':
                     # the trigger set comes back unchanged; a node with an L1 may add the triggers of its own older copy
                     # (superset: over-invalidation only). Names with NUL cannot be carried (known finding).
-                    exact = l1flags[int(f[1])] == '0'
+                    exact = l1flags[int(f[1])] in '0r'
                     if not (sv['t'] == cl['t'] if exact else sv['t'] <= cl['t']):
                         if any(bad_name(t) for t in sv['t']):
                             return ('name-with-nul-or-empty-not-carried', 'fetched trigger set differs from the server\'s: a name '
@@ -544,6 +655,8 @@ def oracle_history(c, out):
                 if k in lossy:
                     return ('name-with-nul-or-empty-not-carried', bad + ' [the latest store of this key had an empty key or a trigger name that is empty or contains NUL]')
                 return ('completed-operation-lost', bad)
+    if has_down and ti != len(toks):
+        return ('server-down-handling', 'a call threw although every server it needs was up (answer tokens left over: %s)' % ' '.join(toks[ti:])[:200])
     return None
 
 
@@ -564,7 +677,62 @@ def walk(region):
     return out
 
 
+def cut_probe_overread(c):
+    """P Z case: (bytes the second attempt sends beyond the request payload, request payload length)"""
+    kind = c[2]
+    if kind == 'F':
+        plen = len(unhex(c[3]))
+    else:
+        plen = len(unhex(c[3])) + len(unhex(c[4])) + sum(len(t) + 1 for t in parse_trigs(c[6]))
+    cut = int(c[-3])
+    rh = unhex(c[-2])
+    size1 = struct.pack('<I', plen)
+    n = max(0, min(cut, 8) - 4)
+    size2 = struct.unpack('<I', rh[4:4 + n] + size1[n:])[0]
+    return max(0, size2 - plen), plen
+
+
+def oracle_cut_probe(c, out):
+    """the connection failed after `cut` bytes of the answer. Whatever happens, the caller must get the genuine answer, a miss or an
+    exception - never anything else; and the second attempt must send the request again, not something else."""
+    o = out.split()
+    kind = c[2]
+    cut = int(c[-3])
+    rh, rp = unhex(c[-2]), unhex(c[-1])
+    if len(o) < 3:
+        return ('bad-output', 'probe answer too short: ' + out[:100])
+    res = o[-1]
+    if kind == 'F':
+        tags, tif = c[5] == '1', c[6] == '1'
+        ropc = struct.unpack('<I', rh[:4])[0]
+        if tif and ropc == 9:
+            genuine = 'r=-1'
+        elif ropc != 7:
+            genuine = 'r=0'
+        else:
+            g3, dl, dlen, tl = struct.unpack('<QqII', rh[16:40])
+            ts = walk(rp[dlen:dlen + tl]) if tags else set()
+            genuine = 'r=1.%s.%d.%s.%d' % (hexs(rp[:dlen]), dl, '_' if not ts else ','.join(hexs(t) for t in sorted(ts)), g3)
+        if res not in (genuine, 'r=0', 'r=!'):
+            return ('fetch-after-connection-failure', 'after a connection failure in the middle of the answer fetch returned %s; allowed: '
+                    'the genuine answer %s, a miss, an exception' % (res[:100], genuine[:100]))
+        if cut == 0 and res != genuine:
+            return ('retry-lost', 'the connection was closed before any byte of the answer: the retry must deliver the answer, got ' + res[:60])
+    if o[2] == 'NO-RETRY':
+        return None if res == 'r=!' else ('bad-output', 'no second attempt but ' + res[:60])
+    f1 = o[1].split('.')
+    f2 = o[2].split('.')
+    if len(f1) != 2 or len(f2) != 3:
+        return ('bad-output', 'unexpected capture ' + out[:100])
+    if f2[0] != f1[0] or int(f2[2]) != len(unhex(f1[1])):
+        return ('retry-sends-overwritten-header', 'after a failure %d bytes into the answer the second attempt of messenger::transmit sent header %s '
+                'with %s payload bytes instead of the request (%s, %d bytes)' % (cut, f2[0], f2[2], f1[0], len(unhex(f1[1]))))
+    return None
+
+
 def oracle_probe(c, out):
+    if c[1] == 'Z':
+        return oracle_cut_probe(c, out)
     o = out.split()
     kind = c[1]
     if len(o) < 3:
@@ -651,13 +819,47 @@ def oracle_concurrent(c, out):
 
 def canon_case(case, out):
     """concurrent runs are not reproducible: they are judged by the oracle alone"""
+    if case.startswith('H ') and wrapping_store_frames(case.split()):
+        return 'H UB-WRAP'       # undefined behaviour in the server (reads outside the frame): the model driver answers the same token
     return 'M' if case.startswith('M ') and out.startswith('M ') and 'BAD-CASE' not in out and 'FAILED' not in out and 'EXCEPTION' not in out else out
+
+
+def wrapping_store_frames(c):
+    """raw store frames of a foreign peer whose uint32 length sum wraps: key_len+data_len+triggers_len != size as integers but
+    equal modulo 2^32 (session::store accepts them and then reads outside the frame). Never generated; docs/C10_wrap.case."""
+    res = []
+    for o in c[3:]:
+        f = o.split(':')
+        if f[0] == 'W' and len(f) == 4 and len(f[2]) == 80:
+            h = unhex(f[2])
+            opc, size = struct.unpack('<II', h[:8])
+            kl, dlen, tl = struct.unpack('<III', h[24:36])
+            if opc == 3 and kl and kl + dlen + tl != size and (kl + dlen + tl) % 2 ** 32 == size:
+                res.append((kl, dlen, tl, size))
+    return res
 
 
 def oracle(case, out):
     c = case.split()
     if out.startswith('SKIPPED-AFTER-HANG') or out == '<missing>':
         return None          # the harness process hung or died on an earlier case of its chunk (that case carries the failure)
+    if c[0] == 'H':
+        wr = wrapping_store_frames(c)
+        if wr:
+            # the frame must be refused (`error`); anything else - an accepted store (`done`), a crash of the server - is the defect
+            toks = out.split()[1:]
+            refused = [t for t in toks if t.startswith('w=') and unhex(t[2:].split('.')[0])[:4] == b'\x05\0\0\0']
+            if out.startswith('<crash') or 'FAILED' in out or len(refused) < len(wr):
+                return ('store-length-sum-wraps', 'a store frame with key_len=%d data_len=%d triggers_len=%d size=%d (sum wraps in uint32) was not '
+                        'refused by tcp_cache_service::session::store: %s' % (wr[0] + (out[:200],)))
+    if c[0] == 'H' and out.startswith('<crash') and any(o.startswith('Z:') and int(o[2:]) >= 5 for o in c[3:]) \
+            and ('read_iovec' in out or 'writev' in out or 'AddressSanitizer' in out):
+        return ('retry-sends-overwritten-header', 'a call whose connection failed 5 or more bytes into the answer header (Z:n): the second attempt of '
+                'messenger::transmit sends the answer\'s size worth of bytes from behind the request string and the sanitizer stopped the '
+                'process: ' + out[:300])
+    if c[0] == 'P' and c[1] == 'Z' and out.startswith('<crash') and int(c[-3]) >= 5 and cut_probe_overread(c)[0] > 0:
+        return ('retry-sends-overwritten-header', 'the second attempt of messenger::transmit sends %d bytes beyond the request string (size field '
+                'overwritten by the answer header) and the process died: %s' % (cut_probe_overread(c)[0], out[:300]))
     if out.startswith('<crash') or out.startswith('EXCEPTION') or 'FAILED' in out or 'BAD-CASE' in out:
         return ('crash-or-io', 'harness could not complete the case: ' + out[:300])
     if c[0] == 'H':
@@ -680,12 +882,20 @@ def nontrivial(case, out):
 
 def classify(case, out):
     c = case.split()
+    if c[0] == 'L':
+        return 'layout-probe'
     if c[0] == 'P':
-        return 'probe:' + c[1]
+        return 'probe:' + c[1] + (':cut=0' if c[1] == 'Z' and c[-3] == '0' else '')
     if c[0] == 'M':
         return 'concurrent:srv%s:nodes%d' % (c[1], len(c[2]))
     n = len(c) - 3
-    fl = c[2]
+    fl = c[2].replace('r', '0').replace('R', '1')
+    if any(x.startswith('D:') for x in c[3:]):
+        return 'hist:server-down:srv%s:%s' % (c[1], 'some-call-threw' if ' !' in out else 'no-call-threw')
+    if any(x.startswith('Z:') for x in c[3:]):
+        return 'hist:connection-failures:srv%s' % c[1]
+    if any(x.startswith('Y:') for x in c[3:]):
+        return 'hist:short-transfers:srv%s' % c[1]
     return 'hist:srv%s:l1=%s:%s' % (c[1], 'all' if '0' not in fl else 'none' if '1' not in fl else 'mixed',
                                     'len<=5' if n <= 5 else 'len<=15' if n <= 15 else 'len>15')
 
@@ -716,6 +926,10 @@ def asan_pass(ctx, cases, volume):
     for c, o in zip(sub, out):
         if o.startswith('<crash'):
             bad += 1
+            r = oracle(c, o)
+            if r and r[0] in ('store-length-sum-wraps', 'retry-sends-overwritten-header'):
+                ctx.fail(r[0], r[1] + '\n  (sanitizer build) case: %s' % c[:400], c)
+                continue
             ctx.fail('sanitizer-abort', 'the harness built with -fsanitize=address,undefined died on this case: ' + o[:1400], c)
             continue
         r = oracle(c, o)
@@ -748,11 +962,13 @@ def run(ctx):
         'extraction: ExtrOcamlBasic, OCaml 4.13.1',
         'harness/C10_netcache.cpp (interposed time(), in-process tcp_cache_service on loopback, capturing fake server), ocaml/C10_driver.ml, checks/C10.py',
         'hand model of cache_over_ip / tcp_cache / tcp_cache_service::session / mem_cache(limit 0) in coq/C10/Defs.v, tied by correspondence',
-        'booster::aio sockets, messenger::transmit framing and threads: exercised, not modelled; every RPC is one atomic server step']
+        'booster::aio reactor and threads: exercised, not modelled; stream_socket::read/write loops and messenger::transmit modelled in coq/C10/NetDefs.v '
+        '(tied by short-transfer histories through interposed readv/writev, by server-down histories and by mid-answer failure probes)']
     ctx.assumptions = [
         'every client is configured with the same server list in the same order',
         'each RPC is atomic on the server (one request of a connection at a time; mem_cache operations are serialised by its lock)',
-        'no reconnect/retry inside messenger::transmit and no server restart (a restart resets the generation counter)',
+        'no server restart for the coherence theorems (a restart resets the generation counter; section 6 of Props.v states what holds across restarts)',
+        'answers shorter than 2^32 bytes and generations below 2^64 (hdr_ok of the answer header) for the transport theorems',
         'fewer than 2^64 stores per server (generation counter does not wrap) and all frame length fields below 2^32',
         'all nodes share one clock',
         'frames come from tcp_cache clients or from peers whose length fields do not wrap in uint32']
@@ -764,6 +980,13 @@ def run(ctx):
         'copy\'s (over-invalidation only); the oracle demands equality for nodes without L1 and superset for nodes with L1',
         'observation (outside the quantifier): a cache server restart resets its generation counter, after which an L1 record of an older '
         'incarnation can be confirmed as up to date; the theorems assume no restart',
+        'finding store-length-sum-wraps (outside the quantifier: hostile network peer): key_len+data_len+triggers_len is checked in uint32; a 41-byte '
+        'frame crashes the cache server (docs/C10_wrap.case, docs/C10_fix_2.diff); never generated',
+        'finding retry-sends-overwritten-header (outside the quantifier: connection failure in mid-answer): the single retry of messenger::transmit sends '
+        'the header object as the failed read left it; never a wrong value (proved), but up to the answer size bytes beyond the request string are sent '
+        '(docs/C10_fix_3.diff); generated as probe P Z',
+        'observation: nodes configured with different orders of the server list do not see each other\'s stores (assumption shown necessary: '
+        'reversed_server_order_refutes_the_property, docs/C10_order.case)',
         'the harness closes all its TCP sockets with RST (SO_LINGER 0 via an interposed socket()) to keep loopback TIME_WAIT entries low']
     exe, err = vlib.build_harness('C10_netcache', ['C10_netcache.cpp'])
     if not exe:
@@ -787,7 +1010,10 @@ def run(ctx):
         'operations over 1-3 servers, 2-3 clients, binary keys/values/trigger names, deadlines around the clock and at int64 extremes, '
         'raw frames of a foreign peer (malformed lengths, empty names, unknown opcodes), a separate stream with names the wire format '
         'cannot carry; concurrent runs (M: one thread per node against 1-2 servers with 2 io threads each, 20-80 operations per node on 1-3 '
-        'keys, judged by the oracle alone: no fetch may return a value that a completed later store/rise/clear had replaced). A history is non-trivial when at least one fetch returned a value; distinct = distinct case lines.')
+        'keys, judged by the oracle alone: no fetch may return a value that a completed later store/rise/clear had replaced). Histories with short '
+        'transfers (Y:n: every readv/writev on a socket moves at most 1..n bytes), with servers going down and up (D:s / U:s: calls that need a server '
+        'that is down must throw, all others must not, a broadcast reaches the servers before the first one that is down), probes with the connection '
+        'closed after `cut` bytes of the answer (P Z), nodes with the reversed server list on one server, a layout probe (L). A history is non-trivial when at least one fetch returned a value; distinct = distinct case lines.')
     ctx.coverage['exhaustive'] = False
     ctx.coverage['exhaustive_parts'] = ['all histories of length <= %d over the 8-operation alphabet that contain a fetch' % ctx.scale(5, 6)]
     mark('case_generation')
